@@ -40,6 +40,9 @@ TEXT = {
     "C11": dict(engine="engine-A-walk", design_ref="6/C11", technique="TLA+ decision table (Codec.tla) enumerated by TLC, one execution of the real codec per case",
                 level_note="Trusted: TLC, Go. A pure function is the situation the technique fits least; what is decided is acceptance, lengths, padding and value identity over the enumerated classes (plus a full sweep of channel numbers), contents are sampled by seed.",
                 level_text="C11_Decode / C11_Padding / C11_AttrSizes are checked by TLC over the table; every case is run on the real ChannelData codec (fresh and reused/dirty values) and the eleven attribute codecs, compared byte for byte."),
+    "C12": dict(engine="engine-A-walk", design_ref="6/C12", technique="TLA+ spec of the transaction table and timers (ClientTxn.tla) + TLC (safety and liveness) + replay of every fault schedule on the real turn.Client in virtual time",
+                level_note="Trusted: TLC, Go, synctest's clock, the scripted PacketConn. Bounded as listed in the evidence assumptions.",
+                level_text="C12_ExactlyOnce, C12_OwnResponse, C12_Schedule, C12_NothingLeft (safety) and C12_Terminates (liveness under fairness of time) are model-checked; each edge is replayed: number and instants of transmissions, result and instant of return of PerformTransaction, and the size of the transaction table are compared after every step."),
     "C16": dict(engine="engine-A-walk", design_ref="6/C16", technique="TLA+ spec of the RFC 6062 relay (TurnTCP.tla) + TLC + lock-step replay on a real server with a stream listener",
                 level_note="Trusted: TLC, Go, synctest, the harness's in-memory streams. Bounded: 2 clients, 2 users, 2 peer IPs x 2 ports, 3 connection ids, depth 6-7.",
                 level_text="TypeOK, C16_UniqueIds, C16_BindOnce, C16_InboundPermitted, C16_Dup446, C16_HeldDelivered are model-checked; every edge (Connect, inbound peer connection, ConnectionBind by right/wrong user and id, data both ways, closes from either side, control-connection close, time to 29/30 s) is replayed and responses, indications, piped bytes, closes, the connection table and the locks are compared."),
